@@ -1,6 +1,10 @@
 import CantoVerif.Driver.Coinswap
+import CantoVerif.Driver.Onboarding
+import CantoVerif.Driver.Govshuttle
 /-! Line-protocol driver: `lake env lean --run Main.lean <suite> < trace` -/
 def main (args : List String) : IO UInt32 := do
   match args with
   | ["coinswap"] => CV.Drv.Coinswap.main; return 0
+  | ["onboarding"] => CV.Drv.Onboarding.main; return 0
+  | ["govshuttle"] => CV.Drv.Govshuttle.main; return 0
   | _ => IO.eprintln "usage: Main <suite>"; return 2
